@@ -84,7 +84,7 @@ def run_case(case):
         odb = cls(fs, os.path.join(root, "cache"), type=[case.get("link", "copy")])
         for c in case["avail"]:
             odb.add_bytes(OID[c], CONTENTS[c])
-        lazy = case.get("form") in ("lazy", "filestore", "filestore-prefix")
+        lazy = case.get("form") in ("lazy", "lazy-broken", "filestore", "filestore-prefix")
         filestore = case.get("form") in ("filestore", "filestore-prefix")
         top = wsd
         if filestore:
@@ -122,7 +122,8 @@ def run_case(case):
             os.makedirs(top)
             shutil.move(top + ".tmp", wsd)
             _staging, _meta, obj = obuild(odb, srcd, fs, "md5")
-            odb.add(obj.path, obj.fs, obj.oid)
+            if case.get("form") != "lazy-broken":      # (broken: the directory object the entry points at is not in storage)
+                odb.add(obj.path, obj.fs, obj.oid)
             new = DataIndex()
             new[("data",)] = DataIndexEntry(key=("data",), meta=Meta(isdir=True), hash_info=obj.hash_info)
         else:
@@ -150,6 +151,9 @@ def run_case(case):
 
         def onerror(src, dest, exc):
             rel = os.path.relpath(dest, wsd)
+            if rel == ".":
+                errs.append("<root>")
+                return
             errs.append(REV.get(rel, "?" + rel))
 
         crash = None
@@ -164,8 +168,10 @@ def run_case(case):
         except Exception as exc:  # noqa: BLE001
             l2 = {"files_delete": ["!" + type(exc).__name__], "dirs_delete": [], "dirs_create": [], "files_create": [], "files_chmod": []}
         leftovers = [k for k in after if k.startswith("?")]
-        return {"ws": case["ws"], "tgt": case["tgt"], "avail": case["avail"], "delete": case["delete"], "lists1": l1,
-                "after": {k: v for k, v in after.items() if not k.startswith("?")}, "errs": sorted(set(errs)), "lists2": l2,
+        broken = case.get("form") == "lazy-broken"
+        return {"ws": case["ws"], "tgt": {} if broken else case["tgt"], "avail": case["avail"], "delete": case["delete"], "lists1": l1,
+                "broken": broken, "broken_reported": "<root>" in errs,
+                "after": {k: v for k, v in after.items() if not k.startswith("?")}, "errs": sorted(set(errs) - {"<root>"}), "lists2": l2,
                 "crash": crash, "leftovers": leftovers, "case": case}
     finally:
         shutil.rmtree(root, ignore_errors=True)
@@ -203,7 +209,7 @@ def execute_and_validate(run, cases):
     errs = [r for r in recs if "harness_error" in r]
     if errs:
         raise tlc.MachineryError("harness error:\n" + errs[0]["harness_error"])
-    doc = [{**{k: r[k] for k in ("ws", "tgt", "avail", "delete", "lists1", "after", "errs", "lists2")},
+    doc = [{**{k: r[k] for k in ("ws", "tgt", "avail", "delete", "lists1", "after", "errs", "lists2", "broken", "broken_reported")},
             "link": r["case"].get("link", "copy"), "hashed": bool(r["case"].get("hashed", True)), "crashed": r["crash"] is not None} for r in recs]
     printed, stats = validate.validate_traces("IndexCheckoutTrace", "IndexCheckoutTrace.cfg", doc, shards=16)
     run.traces += len(recs)
@@ -239,6 +245,13 @@ def make_cases(trees, rng, n, exhaustive=False):
         cases.append({"id": i, "ws": w, "tgt": t, "avail": sorted(avail), "delete": i % 4 != 3, "hashed": i % 3 != 2, "form": form,
                       "cls": ["local", "generic"][zlib.crc32(b"cls%d" % i) % 2],      # (not i % 2: `delete` follows i % 4)
                       "link": ["copy", "hardlink", "symlink"][i % 3] if i % 7 == 0 else "copy"})
+    # a target directory whose directory object cannot be read, over every kind of prior workspace (for the model the
+    # target then lists nothing: with delete the stale content goes, otherwise nothing happens - and the failure is reported)
+    base = len(cases)
+    for j in range(120):
+        w, t = rng.choice(trees), rng.choice([x for x in trees if any(nd["k"] == "f" for nd in x.values())])
+        cases.append({"id": base + j, "ws": w, "tgt": t, "avail": ["c1", "c2"], "delete": j % 2 == 0, "hashed": True, "form": "lazy-broken",
+                      "cls": ["local", "generic"][j % 2], "link": "copy"})
     # prior workspaces holding dangling symbolic links (links whose cache object is gone)
     base = len(cases)
     for j in range(max(200, n // 6)):
